@@ -100,7 +100,7 @@ impl Prop for C01 {
     vec![
       "the reference interpreter is the harness's reading of spec.md sections 4-8 and 10; it reproduces tests/snapshot.txt (205 lines) exactly".into(),
       "call receivers/callees are kept effect-free by the generator (the spec says arguments are evaluated first, the implementation evaluates the receiver first; recorded as a discrepancy, not searched)".into(),
-      "== / != are only generated on int and bool (the spec contradicts itself for references)".into(),
+      "== / != are generated on int, bool and Str (contents); on references the spec contradicts itself, so they are not generated for the reference comparison (C04 alone prints comparisons of Vec values, judged between the two backends only)".into(),
       "struct patterns mention every field (the checker rejects omitted fields although spec 8.5 allows them)".into(),
       "node 22 (V8 12.4) is the WebAssembly engine; recorded findings are excluded from generation by feature flags and re-observed by probes".into(),
     ]
@@ -208,7 +208,9 @@ impl Prop for C04 {
     }
   }
   fn generate(&self, t: &mut Tape, tier: Tier) -> Value {
-    gen_g1("C04", t, tier, |_| {})
+    // equality of Vec values compares elements by identity on both backends; whether two strings are
+    // "the same" element is decided by the run-time library of each backend, so it is part of what must agree
+    gen_g1("C04", t, tier, |c| c.vec_equality = true)
   }
   fn fixed_cases(&self, _tier: Tier) -> Vec<Value> {
     repo_cases()
